@@ -75,6 +75,7 @@ func findSite(a *Analysis, prefix *Term) *Site {
 
 func runC06(cx *CheckCtx) {
 	w := cx.W
+	checkLoaders(cx, nmPkg)
 	c := cx.contract("netmap")
 	if c == nil {
 		return
@@ -874,10 +875,71 @@ func runC08(cx *CheckCtx) {
 			}
 		}
 		cx.decide(ok && n > 0, "ring-index", "netmap.Snapshot", "0 ≤ diff < count established before the ring index is computed", "Snapshot indexes the ring without establishing 0 ≤ diff < count: older (or future) epochs are answered with some other epoch's map", w.pos(m.Fn.Pos()))
-		// index form (id - diff + count) % count
-		for _, ex := range a.Exits() {
-			_ = ex
+		// index form: the slot read is (current − diff + count) % count, the slot NewEpoch wrote diff
+		// ticks ago given that it advances by one modulo count (ring-advance below)
+		var curR, cntR *Term
+		for _, s := range a.Sites(func(s *Site) bool { return s.Callee == "storage.Get" }) {
+			switch kk, _ := s.Args[1].BytesConst(); kk {
+			case "snapshotCurrent":
+				curR = s.Val
+			case "snapshotCount":
+				cntR = s.Val
+			}
 		}
+		okForm := false
+		if curR != nil && cntR != nil {
+			want := tb.binop(token.REM, tb.binop(token.ADD, tb.binop(token.SUB, curR, diff, intType), cntR, intType), cntR, intType)
+			for _, s := range a.Sites(func(s *Site) bool { return s.Callee == "storage.Get" }) {
+				if ps := keyParts(s.Args[1]); len(ps) == 2 && keyFamily(s.Args[1]) == "snapshot_" && ps[1].Op == "byte" && a.Canon(s.In, ps[1].Args[0]) == want {
+					okForm = true
+				}
+			}
+		}
+		cx.decide(okForm, "ring-index", "netmap.Snapshot/slot", "reads slot (current − diff + count) % count", "Snapshot(diff) does not read the slot that was current diff ticks ago ((current − diff + count) % count)", w.pos(m.Fn.Pos()))
+		// rejects only what is out of range: a fault is raised only with diff < 0 ∨ diff ≥ count
+		okRej, nRej := true, 0
+		for _, b := range m.Fn.Blocks {
+			if _, isPanic := b.Instrs[len(b.Instrs)-1].(*ssa.Panic); !isPanic || cntR == nil {
+				continue
+			}
+			for _, p := range b.Preds {
+				st := a.edgeState(tb.root, p, b)
+				if st == nil {
+					continue
+				}
+				nRej++
+				good := false
+				for _, c := range append(a.eqClass(st, cntR), cntR) {
+					if a.holdsAt(st, a.litLtC(diff, 0), -a.litLt(diff, c)) {
+						good = true
+					}
+				}
+				if !good {
+					okRej = false
+				}
+			}
+		}
+		cx.decide(okRej && nRej > 0, "ring-index", "netmap.Snapshot/accepts", "faults only for diff < 0 or diff ≥ count", "Snapshot rejects a diff inside 0 … count−1 (for example the current map, diff 0)", w.pos(m.Fn.Pos()))
+	}
+	if m := cx.method("netmap", "NewEpoch"); m != nil {
+		a := cx.run(m)
+		tb := a.tb
+		var curR, cntR *Term
+		for _, s := range a.Sites(func(s *Site) bool { return s.Callee == "storage.Get" }) {
+			switch kk, _ := s.Args[1].BytesConst(); kk {
+			case "snapshotCurrent":
+				curR = s.Val
+			case "snapshotCount":
+				cntR = s.Val
+			}
+		}
+		okAdv := false
+		for _, s := range a.RealEffects() {
+			if kk, _ := s.Args[1].BytesConst(); s.Effect == "put" && kk == "snapshotCurrent" && curR != nil && cntR != nil {
+				okAdv = a.Canon(s.In, s.Args[2]) == tb.binop(token.REM, tb.binop(token.ADD, curR, tb.constInt(1), intType), cntR, intType)
+			}
+		}
+		cx.decide(okAdv, "ring-index", "netmap.NewEpoch/advance", "the ring index becomes (current + 1) % count", "a tick does not advance the ring by exactly one slot modulo the stored count: Snapshot(diff) reads (current − diff + count) % count and answers with another epoch's map", w.pos(m.Fn.Pos()))
 	}
 	// the per-epoch list: writer, reader and dropper use one fixed-width epoch encoder
 	writeEnc := ""
